@@ -231,7 +231,7 @@ func c02tGen() (string, error) {
 	}
 	var b strings.Builder
 	b.WriteString(header("H2ClientTable", c02tMod, "pkg/module/http2/frame.go", c02tStr))
-	b.WriteString("def u32 (x : Int) : Int := x % 4294967296\n")
+	b.WriteString("set_option linter.unusedVariables false\ndef u32 (x : Int) : Int := x % 4294967296\n")
 
 	// ---- ids -----------------------------------------------------------------------------------------------------
 	nc, err := c02tFind(mf, "", "NewClientConn")
